@@ -82,6 +82,7 @@ type c14Case struct {
 	LenEnd   int           `json:"len_end"`
 	Seed     int64         `json:"seed"`
 	Panicked string        `json:"panicked,omitempty"`
+	Forced   string        `json:"forced,omitempty"` // forced overlap "second lookup of a key while the first caller is between its lookup and its insert": achieved | infeasible | unused
 }
 
 func c14Hasher(kind string, limit int64) middleware.MessageHasher {
@@ -308,6 +309,9 @@ func c14RunConc(rt *c14rt.RT, rng *rand.Rand, mode string, maxG int, cseed int64
 	}
 	prob := 0.25 + 0.5*rng.Float64()
 	rt.Begin(fmt.Sprintf("%p", repo), cseed, prob, time.Duration(20+rng.Intn(200))*time.Microsecond)
+	if mode == "race" && rng.Intn(4) == 0 {
+		rt.Park("dedup.isduplicate.lookup", 25*time.Millisecond)
+	}
 	res.T0Ns = rt.Now()
 	d := &middleware.Deduplicator{KeyFactory: hasher, Repository: repo, Timeout: time.Second}
 	h := d.Middleware(world.handler)
@@ -442,6 +446,7 @@ func c14RunConc(rt *c14rt.RT, rng *rand.Rand, mode string, maxG int, cseed int64
 		}
 	}
 	res.LenEnd = lenOf.Len()
+	res.Forced = rt.ParkResult()
 	res.Threads = threads
 	res.Log = rt.Log()
 	for i := range res.Log { // keys are raw digests: intern them (JSON would mangle the bytes)
